@@ -354,11 +354,11 @@ META = {
     "C18": {"text": "Bounded model checking of the implementation by the symbolic executor: a Raft log of event-kind operations, non-event operations and non-command entries is committed step by step while the real dispatcher goroutine runs; publishes and marker applies fail by choice (bounded), leadership is lost and regained, the manager restarts from the recovered marker; back-off timers are virtual. The recorded publish sequence is checked for at-least-once, id = Raft index, commit order of first appearances and head-of-line blocking.",
             "design_ref": "DESIGN.md §4 C18", "note": "bounds: 2-3 operations, 4-5 steps (commit with drain / run-until-blocked / burst, failover, restart, restart from a snapshot with or without log compaction up to the last published entry), 1-2 publish failures, 1 marker failure; concrete-shaped data (exhaustive enumeration of decision vectors); replay by concrete re-execution", "technique": TECH},
     "C11": {"text": "Bounded model checking of the implementation by the symbolic executor: every sequence of k operations from {SetCursor, FetchCursor (2 cursor ids), cache purge / become leader, compaction of the cursors log, pause+resume (log closed and reopened), restart (fresh cache), a cleaner interval passing (the log's own cleaner loop rolls an aged active segment, then compacts)} on the real cursor manager + reverse subscription + commit log; every fetch is compared with a map model.",
-            "design_ref": "DESIGN.md §4 C11", "note": "bounds: k = 4 (quick) / 5 (thorough) sequential operations, 2 cursor ids, offsets from {0,5,300}; one cache-missing FetchCursor racing one SetCursor on the same cursor under the exploring scheduler (pre-emption bound 1 / 2); data is concrete-shaped here (the solver decides nothing of substance; the quantifier is covered by exhaustive enumeration of decision vectors); real leader change over NATS outside", "technique": TECH},
+            "design_ref": "DESIGN.md §4 C11", "note": "bounds: k = 4 (quick) / 5 (thorough) sequential operations, 2 cursor ids, offsets from {0,5,300}; one cache-missing FetchCursor racing one SetCursor on the same cursor under the exploring scheduler (pre-emption bound 1 / 2); a cursors-partition leader change is a cache purge plus, by choice, the new leader's HW one message behind until the next replication request (known finding F33); leadership may move to another server and back (requests must be refused meanwhile); data is concrete-shaped here (the solver decides nothing of substance; the quantifier is covered by exhaustive enumeration of decision vectors); real leader change over NATS outside", "technique": TECH},
     "C07": {"text": "Bounded model checking of the implementation by the symbolic executor: on a controller with a 3-replica partition, every sequence of k events from {leader report, ISR shrink, ISR expand (each by any of 4 ids incl. a non-replica, naming the current or a stale leader/epoch; stale epochs are arbitrary 64-bit values decided by the solver), report-window expiry, controller leadership loss} runs through the real ReportLeader/ShrinkISR/ExpandISR/failover/FSM code; after every event the leadership invariants are asserted against a witness model.",
-            "design_ref": "DESIGN.md §4 C07", "note": "bounds: k = 3 (quick) / 4 (thorough) events, one partition with 3 replicas, sequential requests; replay by concrete re-execution (Raft stand-in)", "technique": TECH},
+            "design_ref": "DESIGN.md §4 C07", "note": "bounds: k = 3 (quick) / 4 (thorough) events, one partition with 3 replicas starting with the full in-sync set or leader + one follower, four other partitions led by the followers, sequential requests; replay by concrete re-execution (Raft stand-in)", "technique": TECH},
     "C15": {"text": "Symbolic execution of all 16 client API methods of the current source with ACLs on: the policy's answer for the call is a symbolic boolean, back ends are effect recorders, the partition and the consumer group's current subscription are real. On the 'no' side the call must return an error, the effect log must be empty and the existing subscription must still be the active one. The list of methods is fixed in the harness (a new RPC needs a new case).",
-            "design_ref": "DESIGN.md §4 C15", "note": "bounds: one request shape per method, partition paused or not; what is not decided: casbin's matching, certificate -> client id, policy reload plumbing", "technique": TECH},
+            "design_ref": "DESIGN.md §4 C15", "note": "bounds: one request shape per method (fields that could be confused carry different values), partition paused or not, the policy's symbolic answer belongs to the documented (resource, action) of the method and anything else it is asked about has an answer of its own, one two-message PublishAsync session with the answer changing in between; what is not decided: casbin's matching, certificate -> client id, policy reload plumbing", "technique": TECH},
     "C04": {"text": "Bounded symbolic model checking of the implementation: a batch of publishes with symbolic ack policy, size class, expected offset and encryption outcome runs through the real leader loop and commit loop; replica progress reports (symbolic offsets), ISR shrinks and expansions follow in every order; every ack handed to the ack inbox is recorded and checked against the policy semantics, the stored bytes at the acked offset, and the ISR at the moment the commit loop acted.",
             "design_ref": "DESIGN.md §4 C04", "note": "bounds: batch of 1-2 messages, 2 (quick) / 3 (thorough) follow-up actions, replication factor 1 or 3, min ISR 1..RF; action-atomic interleaving; replay by concrete re-execution (stand-ins)", "technique": TECH},
     "C16": {"text": "Bounded symbolic model checking of the implementation: (a) k conditional single-message appends with arbitrary 64-bit expected offsets on a real log with concurrency control: stored iff -1 or exactly the assigned offset, refused appends leave the log unchanged, no two appends with the same expected offset succeed; (b) the leader loop on such a partition with 2-3 publishes arriving together: each is appended on its own, refused ones get INCORRECT_OFFSET and nothing else is disturbed.",
